@@ -27,7 +27,7 @@ From Verif.Base Require Import Bytes.
 From Verif.Codec Require Import Packets Decode Encode.
 From Verif.Gateway Require Import GwTypes GwStep GwWf.
 From Verif.Client Require Import ClTypes ClStep.
-From Verif.System Require Import Compose ComposeProofs ComposeProofs2_aux ComposeProofs2 ComposeProofs3_aux ComposeProofs3 ComposeLoss ComposeLoss2 ComposeSleep ComposeSleepQ1 ComposeSleepQ1n ComposeSleepQ2 ComposeSleepQ2b.
+From Verif.System Require Import Compose ComposeProofs ComposeProofs2_aux ComposeProofs2 ComposeProofs3_aux ComposeProofs3 ComposeLoss ComposeLoss2 ComposeSleep ComposeSleepQ1 ComposeSleepQ1n ComposeSleepQ2 ComposeSleepQ2b ComposeAwake.
 From Verif.Checkers Require Import ChkCodec ChkE2E.
 Open Scope N_scope.
 
@@ -285,6 +285,42 @@ Theorem C26_qos2_message_is_delivered_once_over_two_sleep_cycles :
       AwakeS cfg y' subs [] /\ gw_now (y_gw y') = t + d + d2 /\ y_br y' = y_br y.
 Proof. exact ComposeSleepQ2b.C26_qos2_message_is_delivered_once_over_two_sleep_cycles. Qed.
 Print Assumptions C26_qos2_message_is_delivered_once_over_two_sleep_cycles.
+
+(* Calls in the awake state (after Sleep has returned; the gateway regards the client as asleep).  Ping: the PINGREQ
+   carries no client ID; the gateway answers it itself - it flushes whatever it has buffered since the last wake-up
+   (QoS 0 messages ms0, each to its handler once and in order) and sends PINGRESP; Ping returns nil; the broker sees
+   nothing (ComposeAwake.ping_trace_facts); the state is awake and idle again with an empty buffer. *)
+Theorem C26_ping_in_the_awake_state :
+  forall cfg y subs ms0 id,
+    AwakeS cfg y subs (map bm_sn ms0) -> Forall (bm_ok subs) ms0 -> N.of_nat (length ms0) <= 9998 ->
+    nth_fault (e_c2g cfg) (y_c2g_k y) = FDeliver ->
+    (forall i, (i <= length ms0)%nat -> nth_fault (e_g2c cfg) (y_g2c_k y + i) = FDeliver) ->
+    let t := gw_now (y_gw y) in
+    exists y', sys_step cfg y (SCall id APing) = (y', ping_trace t id ms0) /\
+      AwakeS cfg y' subs [] /\ gw_now (y_gw y') = t /\ y_br y' = y_br y /\
+      y_c2g_k y' = S (y_c2g_k y) /\ y_g2c_k y' = (y_g2c_k y + S (length ms0))%nat.
+Proof. exact e2e_ping_while_awake. Qed.
+Print Assumptions C26_ping_in_the_awake_state.
+
+(* Sleep, wake-up, Ping: exact traces, both calls return nil, nothing reaches the broker *)
+Theorem C26_sleep_cycle_then_ping :
+  forall cfg y subs id ms d id2,
+    QuietS cfg y subs -> 1000 <= ms -> ms / 1000 < 65536 ->
+    gw_keepalive (y_gw y) = 0 \/ ms / 1000 <= gw_keepalive (y_gw y) ->
+    okb (k_cid (e_cl cfg)) = true ->
+    (forall i, (i <= 2)%nat -> nth_fault (e_c2g cfg) (y_c2g_k y + i) = FDeliver) ->
+    (forall i, (i <= 2)%nat -> nth_fault (e_g2c cfg) (y_g2c_k y + i) = FDeliver) ->
+    ms <= d ->
+    let t := gw_now (y_gw y) in
+    exists oss y', sys_run cfg y [SCall id (ASleep ms); SAdv d; SCall id2 APing] = (oss, y') /\
+      oss = [[SoC2G t FDeliver (pack (Disconnect (ms / 1000))); SoG2C t FDeliver (pack (Disconnect 0))];
+             [SoC2G (t + ms) FDeliver (pack (Pingreq (k_cid (e_cl cfg)))); SoG2C (t + ms) FDeliver (pack Pingresp);
+              SoRet (t + ms) id ROk];
+             [SoC2G (t + d) FDeliver (pack (Pingreq [])); SoG2C (t + d) FDeliver (pack Pingresp); SoRet (t + d) id2 ROk]] /\
+      rets_of (concat oss) = [(id, ROk); (id2, ROk)] /\ brs_of (concat oss) = [] /\ cbs_full (concat oss) = [] /\
+      AwakeS cfg y' subs [] /\ gw_now (y_gw y') = t + d /\ y_br y' = y_br y.
+Proof. exact ComposeAwake.C26_sleep_cycle_then_ping. Qed.
+Print Assumptions C26_sleep_cycle_then_ping.
 
 (* the refutation, as a history of the end-to-end monitor: lossless link, the subscription in place,
    two broker messages back to back on one new topic -> clause (26,4); one after the other -> none *)
